@@ -12,8 +12,10 @@ theorem verdict : (classify Generated.factsC12).Sound (Holds (cfgOf Generated.fa
 #print axioms cap_inv
 #print axioms four_cell
 #print axioms holds_good
-#print axioms refutes_current
+#print axioms refutes_countFirst
 #print axioms witness_overshoots
+#print axioms refutes_createFromSeed
+#print axioms refutes_expiredEarlyUnlock
 #print axioms max_const
 
 end Hv.C12
